@@ -137,6 +137,9 @@ def r2(ctx):
     progress.check(ctx)
 
 
+COUNTS = (0, 1, 5, 255, 256, 65536, 2 ** 31 - 1)      # multiples of 2^8 / 2^16: a status narrowed before it is clamped
+
+
 def exec_search_table(ctx):
     """exit status of exec_search read off its source by the finite interpreter, per scenario
     (parse result, search result, error count) -> (status, diagnostics written); None where it cannot be evaluated"""
@@ -145,7 +148,7 @@ def exec_search_table(ctx):
     out = {}
     for parse_ok in (True, False):
         for search in ("ok", "pipe", "other"):
-            for count in (0, 1, 5):
+            for count in COUNTS:
                 if not parse_ok and (search != "ok" or count):
                     continue
                 effects = []
@@ -191,9 +194,9 @@ def r3(ctx):
         ctx.violation("status/unreadable", ctx.where(EXEC_SEARCH), "cannot evaluate exec_search: %s" % why)
     else:
         ok_parse = tbl[(False, "ok", 0)][0] == 2 and len(tbl[(False, "ok", 0)][1]) >= 1
-        ok_count = all(tbl[(True, sr, c)][0] == (0 if c == 0 else 1) for sr in ("ok", "pipe") for c in (0, 1, 5)) and \
-            all(tbl[(True, "other", c)][0] == 1 and tbl[(True, "other", c)][1] for c in (0, 1, 5))
-        ctx.covered("exit status of exec_search on 10 scenarios (parse result x search result x error count), read by the finite interpreter",
+        ok_count = all(tbl[(True, sr, c)][0] == (0 if c == 0 else 1) for sr in ("ok", "pipe") for c in COUNTS) and \
+            all(tbl[(True, "other", c)][0] == 1 and tbl[(True, "other", c)][1] for c in COUNTS)
+        ctx.covered("exit status of exec_search on 22 scenarios (parse result x search result x error count), read by the finite interpreter",
                     len(tbl), distinct_keys=[str(k) for k in tbl], sample={str(k): v[0] for k, v in tbl.items()}, exhaustive=True)
     ctx.obligation(ok_parse)
     ctx.obligation(ok_count)
